@@ -13,6 +13,7 @@ HARNESS = {
     # C17: sqrt of posit (generic build and fast build), fixpnt, integer
     "h_sqrt": dict(src="h_sqrt.cpp"),
     "h_sqrt_fast": dict(src="h_sqrt.cpp", flags=["-DPOSIT_FAST_SPECIALIZATION=1"]),
+    "h_sqrt_native": dict(src="h_sqrt.cpp", flags=["-DPOSIT_NATIVE_SQRT=1"]),
 }
 
 POSIT_SMALL = [(n, es) for n in range(2, 9) for es in range(0, 6) if es <= n - 2 or (n, es) in ((2, 0),)]
@@ -129,6 +130,15 @@ def sqrt_streams(tier, seed, exes):
         jobs.append(dict(exe=g, args=["fixpnt", str(n), str(rb), "exh"], label=f"sqrt fixpnt<{n},{rb}> exhaustive"))
     for n in SQRT_INT_EXH:
         jobs.append(dict(exe=g, args=["integer", str(n), "0", "exh"], label=f"sqrt integer<{n}> exhaustive"))
+    # the es = 0 configurations and the non-default build option POSIT_NATIVE_SQRT=1 (Newton iteration)
+    for (n, es) in [(10, 0), (12, 0), (14, 0), (16, 0)]:
+        jobs.append(dict(exe=g, args=["posit", str(n), str(es), "exh"], label=f"sqrt posit<{n},{es}> exhaustive"))
+    if "h_sqrt_native" in exes:
+        nat = exes["h_sqrt_native"]
+        for (n, es) in [(8, 0), (8, 2), (10, 0), (12, 1), (14, 1), (16, 0), (16, 1), (16, 2)]:
+            jobs.append(dict(exe=nat, args=["posit", str(n), str(es), "exh"], label=f"sqrt (POSIT_NATIVE_SQRT=1) posit<{n},{es}> exhaustive"))
+        for (n, es) in [(20, 1), (32, 2)]:
+            jobs.append(dict(exe=nat, args=["posit", str(n), str(es), "rnd", str(cnt // 4)], label=f"sqrt (POSIT_NATIVE_SQRT=1) posit<{n},{es}> sampled"))
     jobs.sort(key=lambda j: 0 if ("<16," in j["label"] or "sampled" in j["label"]) else 1)
     return jobs
 
@@ -176,7 +186,7 @@ PROPS = {
         trusted=["gen/extract_tables.py (regex over the headers) for the lookup tables"],
     ),
     "C17": dict(
-        harness=["h_sqrt", "h_sqrt_fast"],
+        harness=["h_sqrt", "h_sqrt_fast", "h_sqrt_native"],
         streams=sqrt_streams,
         level="proof",
         level_text="sqrt of posit (tables regenerated from sqrt_tables.hpp, double detour, integer-only fast posit<16,1>/<32,2>), of fixpnt "
